@@ -109,13 +109,18 @@ func reachingStores(alloc ssa.Value, at ssa.Instruction) (vals []ssa.Value, zero
 
 // canon follows representation changes and unique store→load forwarding so that
 // two reads of the same spilled variable with the same reaching definition compare equal.
-func canon(v ssa.Value) ssa.Value {
+func canon(v ssa.Value) ssa.Value { return canonX(v, true) }
+
+// canonLocal is canon without crossing helper boundaries: the value as the function itself holds it.
+func canonLocal(v ssa.Value) ssa.Value { return canonX(v, false) }
+
+func canonX(v ssa.Value, cross bool) ssa.Value {
 	for i := 0; i < 20; i++ {
 		v = stripConv(v)
 		// values crossing the boundary of a helper introduced after the reference tree (see world.go):
 		// a parameter of a helper with one call site is the argument passed there; the result of a helper
 		// with one success return is the value returned there
-		if len(newFuncs) > 0 {
+		if cross && len(newFuncs) > 0 {
 			if nv := throughNewHelper(v); nv != nil {
 				v = nv
 				continue
@@ -193,9 +198,17 @@ func singleSuccessReturn(h *ssa.Function) *ssa.Return {
 	singleRetMemo[h] = nil
 	var only *ssa.Return
 	n := 0
+	// a lookup-style helper without an error result reports failure through a trailing false
+	res := h.Signature.Results()
+	foundStyle := errResultIndex(h) < 0 && res.Len() >= 2 && isBoolType(res.At(res.Len()-1).Type())
 	for _, r := range Returns(h) {
 		if r.Kind == RetError {
 			continue
+		}
+		if foundStyle && len(r.Ret.Results) == res.Len() {
+			if bv, isC := boolConst(r.Ret.Results[res.Len()-1]); isC && !bv {
+				continue
+			}
 		}
 		n++
 		only = r.Ret
@@ -1055,6 +1068,36 @@ func classifyErrVal(v ssa.Value, at *ssa.BasicBlock, depth int) RetKind {
 			}
 			if cal.Name == "Wrap" || cal.Name == "Wrapf" || cal.Name == "Errorf" || cal.Name == "New" && cal.Pkg == "errors" {
 				return RetError
+			}
+		}
+		// an error-translating helper introduced after the reference tree (e.g. notFoundAs(err, ErrX)):
+		// its result is what each of its returns yields, a parameter standing for the argument passed here
+		if h := x.Call.StaticCallee(); h != nil && isNewHelper(h) && len(h.Blocks) > 0 && h.Signature.Results().Len() == 1 {
+			k := RetKind(-1)
+			for _, b := range h.Blocks {
+				r, isR := b.Instrs[len(b.Instrs)-1].(*ssa.Return)
+				if !isR || len(r.Results) != 1 {
+					continue
+				}
+				var kk RetKind
+				if q, isP := stripConv(r.Results[0]).(*ssa.Parameter); isP {
+					kk = RetUnknown
+					for i, hp := range h.Params {
+						if hp == q && i < len(x.Call.Args) {
+							kk = classifyErrVal(x.Call.Args[i], x.Block(), depth+1)
+						}
+					}
+				} else {
+					kk = classifyErrVal(r.Results[0], b, depth+1)
+				}
+				if k == -1 {
+					k = kk
+				} else if k != kk {
+					k = RetUnknown
+				}
+			}
+			if k == RetError || k == RetSuccess {
+				return k
 			}
 		}
 	case *ssa.Phi:
